@@ -304,3 +304,12 @@ def corrector_order(env):
             env.eq('GN: solver sees W Jc and -W Rc of the corrected residuals', T.cat([A, b], -1), T.cat([Wm @ Jc, -(Wm @ rc).unsqueeze(-1)], -1))
         else:
             env.eq('LM: rhs is -Jc^T W Rc of the corrected residuals', b.reshape(-1), -(Jc.transpose(-1, -2) @ Wm @ rc))
+
+
+# the clamp of diag(J^T W J) reads min / max from the parameter group, which LevenbergMarquardt.__init__ merges with the strategy's
+# defaults and every strategy update mutates: that the group's min / max are and stay LM's own bounds under each real strategy is
+# part of the strategy contracts (stated once, in c08_lm.py: check_lm_bounds) and discharged in this check too.
+from contracts import c08_lm as _c08
+for _nm, _fn in (('Constant', _c08.s_const), ('Adaptive', _c08.s_adapt), ('TrustRegion', _c08.s_tr)):
+    obligation(f'C07.callee.strategy.{_nm}', functions=[f'{OPT}:LevenbergMarquardt.__init__', f'pypose.optim.strategy:{_nm}.__init__', f'pypose.optim.strategy:{_nm}.update'],
+               max_paths=128, note='callee contract assumed by C07.LM.step.trials (same contract function as C08.strategy.*)')(_fn)
